@@ -84,7 +84,7 @@ class C03(Check):
     rule = ("archives of 1..5 entries built by the reference writer: names over {a,b,..,.,'',absolute outside prefix, destination's own "
             "name}, kinds file/dir/symlink with link texts {., .., ../.., a, a/.., absolute outside}; enumerated: all 1-entry archives "
             "over the reduced (12 names x 8 kinds) and dotted (names <= 3 components over {a,..,.,'',ABS}) alphabets x 12 "
-            "configurations, all 2-entry archives over the reduced alphabet (x 3 destination forms in the thorough tier, rotating in quick), the re-pointing slices (link inside when created, re-pointed by a later entry, then used: 27k 3-entry and 15k 4-entry sequences), the link-through-link 3-entry "
+            "configurations, all 2-entry archives over the reduced alphabet (x 3 destination forms in the thorough tier, rotating in quick), the re-pointing slices (link inside when created, re-pointed by a later entry, then used: 27k 3-entry and 15k 4-entry sequences; 1152 six-entry chains in which a link reached through another link changes meaning when that other link is re-pointed), the link-through-link 3-entry "
             "slice; thorough: all 3-entry archives; Hypothesis beyond. x destination absolute/relative/None x opened by path/stream "
             "x destination empty/pre-populated x extractall/extract(targets). Non-trivial: archive has a symlink entry or a '..'/absolute "
             "name; distinct by (entries, destination form, open mode, pre-populated, api).")
@@ -128,16 +128,6 @@ class C03(Check):
                         i += 1
                         if env.mine(i) and p is False:
                             yield {"entries": [[n, k, t], [n, k2, t2]], "dest": d, "open": o, "pre": p, "api": "extractall"}
-        j = 0
-        for e1 in RED_ENTRIES:
-            for e2 in RED_ENTRIES:
-                j += 1
-                for di, d in enumerate(DESTS):
-                    if env.quick and di != j % 3:
-                        continue  # quick: one destination form per pair (rotating); thorough: all three
-                    i += 1
-                    if env.mine(i):
-                        yield {"entries": [e1, e2], "dest": d, "open": OPENS[(j + di) % 2], "pre": bool((j // 2 + di) % 2), "api": "extractall"}
         # link-through-link slice: a link, an entry whose name passes through it, then anything
         third = [e for e in RED_ENTRIES if OUT not in e[0] and OUT not in e[2]] + [[n, k, t] for n in ("b", "b/a", "b/b", "a/b/a", "b/..") for (k, t) in KINDS]
         for t1 in LINK_TEXTS:
@@ -175,6 +165,31 @@ class C03(Check):
                     i += 1
                     if env.mine(i):
                         yield {"entries": [["a/f", "file", ""], e2, e3, e4], "dest": DESTS[i % 3], "open": OPENS[(i // 3) % 2], "pre": False, "api": "extractall"}
+        # chains: a link m that passes through another link l; l is re-pointed later (under the same or an equivalent name), then
+        # m is used again - what m means changed although m itself was never touched (6 entries)
+        for t1 in ("a", ".", "a/.."):
+            for suf in ("/..", "", "/."):
+                for warm in (None, ["m/x", "file", ""]):
+                    for n4 in ("l", "./l"):
+                        for t4 in (".", "..", "a", "a/.."):
+                            for n5 in ("m/y", "m/x"):
+                                for (k5, t5) in (("file", ""), ("emptyfile", ""), ("dir", ""), ("link", ".")):
+                                    i += 1
+                                    if env.mine(i):
+                                        ents = [["a/f", "file", ""], ["l", "link", t1], ["m", "link", "l" + suf]] + ([warm] if warm else []) + \
+                                               [[n4, "link", t4], [n5, k5, t5]]
+                                        yield {"entries": ents, "dest": DESTS[i % 3], "open": OPENS[(i // 3) % 2], "pre": False, "api": "extractall"}
+        # all pairs over the reduced alphabet come last: the broadest and least targeted slice is what a tight budget may cut
+        j = 0
+        for e1 in RED_ENTRIES:
+            for e2 in RED_ENTRIES:
+                j += 1
+                for di, d in enumerate(DESTS):
+                    if env.quick and di != j % 3:
+                        continue  # quick: one destination form per pair (rotating); thorough: all three
+                    i += 1
+                    if env.mine(i):
+                        yield {"entries": [e1, e2], "dest": d, "open": OPENS[(j + di) % 2], "pre": bool((j // 2 + di) % 2), "api": "extractall"}
         if not env.quick:
             for e1 in RED_ENTRIES:
                 for e2 in RED_ENTRIES:
